@@ -210,7 +210,8 @@ impl Disk
                 }    
             }
         }
-        return self.dpb.user_blocks() as u16 - used as u16;
+        // a damaged directory can reference more blocks than the volume has
+        return (self.dpb.user_blocks() as u16).saturating_sub(used as u16);
     }
     fn is_extent_free(&self,ptr: Ptr,dir: &Directory) -> bool {
         match dir.get_type(&ptr) {
